@@ -51,7 +51,11 @@ from runner import enc, Infra
 RULE = ('append/kill: configurations {gzip, plain} x buffer {the real default, 64 bytes} x earlier state {archive absent, '
         'empty, 1, 2, 3 records} x record bodies (0 .. 20000 bytes, so the append is 1..n raw writes) x EVERY primitive '
         'index of the fault-free run x {OSError, kill} x partial-write amounts {0, 1, half, all-1, all}; OSError from the '
-        'record source at 4 positions; every single-fault run is extended by a second fault/kill at every later primitive '
+        'record source at 4 positions; the CLASS of the injected error is a dimension: OSError(ENOSPC), OSError(EIO), '
+        'PermissionError(EACCES), PermissionError(EPERM), FileNotFoundError(ENOENT), InterruptedError (not on raw writes: '
+        'PEP 475, the io layer retries those itself), BlockingIOError, TimeoutError, bare IOError -- quick: the class '
+        'rotates with the primitive index and the variant, so every class meets open, write, close, truncate, unlink; '
+        'thorough: every class at every primitive; every single-fault run is extended by a second fault/kill at every later primitive '
         '(thorough: all of them for bodies <= 200 bytes with no / 2 earlier records, 500 sampled per other configuration; '
         'quick: 100 sampled per small configuration) and a sample of third faults. Single kills are real child processes '
         '(os._exit at the primitive); in quick the kills of multi-fault schedules are simulated in-process and the '
@@ -86,6 +90,27 @@ UNPROVED = []
 # ------------------------------------------------------------------ injection
 class Die(BaseException):
     pass
+
+
+import errno as _errno
+
+# the class of the injected I/O error is a dimension of its own: `except (OSError, IOError)` must treat them alike
+ERR_CLASSES = ['enospc', 'eio', 'eacces', 'eperm', 'enoent', 'eintr', 'eagain', 'etimedout', 'ioerror']
+_ERRNO = {'enospc': _errno.ENOSPC, 'eio': _errno.EIO, 'eacces': _errno.EACCES, 'eperm': _errno.EPERM,
+          'enoent': _errno.ENOENT, 'eintr': _errno.EINTR, 'eagain': _errno.EAGAIN, 'etimedout': _errno.ETIMEDOUT}
+
+
+def make_error(cls, msg, path=None):
+    """OSError(ENOSPC) / OSError(EIO) / PermissionError(EACCES|EPERM) / FileNotFoundError / InterruptedError /
+    BlockingIOError / TimeoutError (OSError's constructor picks the subclass from errno) / bare IOError."""
+    if cls == 'ioerror':
+        return IOError('injected ' + msg)
+    no = _ERRNO[cls or 'eio']
+    return OSError(no, 'injected ' + msg, path) if path is not None else OSError(no, 'injected ' + msg)
+
+
+def act_class(act, default='eio'):
+    return act[2] if act is not None and len(act) > 2 and act[2] else default
 
 
 class Injector:
@@ -166,7 +191,7 @@ class FaultyFileIO(io.FileIO):
                 inj.outcome(i, 'die')
                 inj.die()
             inj.outcome(i, 'fail')
-            raise OSError(5, 'injected open failure', path)
+            raise make_error(act_class(act), 'open failure', path)
         try:
             super().__init__(path, mode)
         except OSError as e:
@@ -190,7 +215,7 @@ class FaultyFileIO(io.FileIO):
                 inj.outcome(i, 'die %d' % k)
                 inj.die()
             inj.outcome(i, 'fail %d' % k)
-            raise OSError(28, 'injected write failure')
+            raise make_error(act_class(act, 'enospc'), 'write failure')
         done = 0
         while done < len(b):
             done += super().write(b[done:])
@@ -208,7 +233,7 @@ class FaultyFileIO(io.FileIO):
                 inj.outcome(i, 'die')
                 inj.die()
             inj.outcome(i, 'fail')
-            raise OSError(5, 'injected truncate failure')
+            raise make_error(act_class(act), 'truncate failure')
         return super().truncate(size)
 
     def close(self):
@@ -224,7 +249,7 @@ class FaultyFileIO(io.FileIO):
                 inj.die()
             inj.outcome(i, 'fail')
             super().close()          # the descriptor is released even when close(2) reports an error
-            raise OSError(5, 'injected close failure')
+            raise make_error(act_class(act), 'close failure')
         return super().close()
 
 
@@ -275,7 +300,7 @@ class _PathProxy:
                 inj.outcome(i, 'die')
                 inj.die()
             inj.outcome(i, 'fail')
-            raise OSError(5, 'injected stat failure')
+            raise make_error(act_class(act), 'stat failure')
         return os.path.getsize(path)
 
 
@@ -301,7 +326,7 @@ class _OsProxy:
                 inj.die()
             inj.outcome(i, 'fail')
             inj.after_unlink = True
-            raise OSError(5, 'injected unlink failure')
+            raise make_error(act_class(act), 'unlink failure')
         try:
             return os.remove(path)
         except FileNotFoundError:
@@ -433,18 +458,19 @@ def make_record(body, uri='urn:x-c06:record'):
 class SourceFails:
     """A record whose byte source raises OSError after `n` pieces (like the temp file going away)."""
 
-    def __init__(self, record, n):
+    def __init__(self, record, n, cls='eio'):
         self._record = record
         self._n = n
+        self._cls = cls
         self.fields = record.fields
         self.block_file = record.block_file
 
     def __iter__(self):
         for i, piece in enumerate(self._record):
             if i == self._n:
-                raise OSError(5, 'injected read failure of the record source')
+                raise make_error(self._cls, 'read failure of the record source')
             yield piece
-        raise OSError(5, 'injected read failure of the record source')
+        raise make_error(self._cls, 'read failure of the record source')
 
 
 class Env:
@@ -582,7 +608,7 @@ def run_real(case):
     record.fields['WARC-Warcinfo-ID'] = env.rec._warcinfo_record.fields['WARC-Record-ID']
     record_bytes = b''.join(record)
     if case.get('src_fail') is not None:
-        record = SourceFails(record, case['src_fail'])
+        record = SourceFails(record, case['src_fail'], case.get('src_cls') or 'eio')
     schedule = sched_of(case)
     with log_config(case.get('logging')):
         if any(a[0] == 'die' for a in schedule.values()) and case.get('kill_mode', 'fork') == 'fork':
@@ -679,8 +705,23 @@ def enc_optb(b):
     return 'None' if b is None else '=' + enc(b)
 
 
-def model_line(before, journal0, s, src_fail):
-    return ' '.join(['warcwrite run', enc_optb(before), enc_optb(journal0), s['getsize'], s['jopen'],
+def first_append_error_class(case, trace):
+    """Class of the error that comes out of the `with open_func(...)` block: the first failed primitive on the
+    archive opened for append (else the record source's)."""
+    sch = sched_of(case)
+    opens = 0
+    for i, (kind, role, arg, out) in enumerate(trace):
+        if kind == 'open' and role == 'a':
+            opens += 1
+            if opens >= 2:
+                break
+        if role == 'a' and opens <= 1 and out.startswith('fail') and i in sch:
+            return act_class(sch[i], 'enospc' if kind == 'write' else 'eio')
+    return case.get('src_cls') or 'eio'
+
+
+def model_line(before, journal0, s, src_fail, cls='eio'):
+    return ' '.join(['warcwrite runE', cls, enc_optb(before), enc_optb(journal0), s['getsize'], s['jopen'],
                      s['jwrite'], s['jretry'], s['jclose'], s['junlink'], s['aopen'],
                      '/'.join(enc(d) for d in s['adata']) or '~', ','.join(s['aouts']) or '~',
                      'T' if src_fail else 'F', s['aclose'], s['ropen'], s['rtrunc'], s['rclose'], s['unlink']])
@@ -771,7 +812,7 @@ def phases(trace):
 # ------------------------------------------------------------------ one batch: real runs, model, compare
 def case_key(case):
     return (case['stream'], case.get('logging', 'warning'), case.get('kill_mode', 'fork'), case['compress'], case.get('bufsize'), case.get('prior'), case['body_len'],
-            case.get('body_seed', 0), tuple(sorted(sched_of(case).items())), case.get('src_fail'))
+            case.get('body_seed', 0), tuple(sorted(sched_of(case).items())), case.get('src_fail'), case.get('src_cls'))
 
 
 def run_cases(ctx, cases):
@@ -782,7 +823,8 @@ def run_cases(ctx, cases):
         r = run_real(case)
         s, text = analyse(r['trace'])
         r['text'] = text
-        lines.append(model_line(r['before'], None, s, case.get('src_fail') is not None))
+        lines.append(model_line(r['before'], None, s, case.get('src_fail') is not None,
+                                first_append_error_class(case, r['trace'])))
         results.append(r)
     replies = ctx.model.ask(lines)
     for case, r, rep in zip(cases, results, replies):
@@ -799,6 +841,11 @@ def run_cases(ctx, cases):
             tags.append('path:journal-write-retried')
         if case.get('kill_mode') == 'sim' and case['stream'] == 'kill':
             tags.append('kill:simulated')
+        for a in sch.values():
+            if a[0] == 'fail':
+                tags.append('errclass=%s' % act_class(a, 'default'))
+        if case.get('src_cls'):
+            tags.append('errclass=%s' % case['src_cls'])
         ctx.case(case_key(case), nontrivial=nfault > 0, tags=tags)
         if real != rep:
             ctx.disagree(case['stream'], public_case(case), rep[:600], real[:600])
@@ -807,8 +854,16 @@ def run_cases(ctx, cases):
 
 
 # ------------------------------------------------------------------ schedules
-def variants(entry, kinds=('fail', 'die'), rich=True):
-    """All actions to try at one logged primitive."""
+def classes_for(entry):
+    # PEP 475: CPython's BufferedWriter itself re-issues a raw write that raised InterruptedError (EINTR never
+    # reaches wpull from a write); everywhere else (open, truncate, close, unlink, stat, record source) it does.
+    return [c for c in ERR_CLASSES if not (entry[0] == 'write' and c == 'eintr')]
+
+
+def variants(entry, kinds=('fail', 'die'), rich=True, rot=0, all_classes=False):
+    """All actions to try at one logged primitive.  The class of the OSError rotates with `rot` (primitive
+    index) and the variant number, so a sweep meets every class at every kind of primitive within the same
+    budget; `all_classes`: additionally every class at this primitive."""
     kind, role, arg, out = entry
     if kind == 'write':
         n = len(arg)
@@ -816,12 +871,27 @@ def variants(entry, kinds=('fail', 'die'), rich=True):
         ks = [k for k in ks if k <= n]
     else:
         ks = [0]
-    return [(a, k) for a in kinds for k in ks]
+    cl = classes_for(entry)
+    out_, j = [], 0
+    for a in kinds:
+        for k in ks:
+            if a == 'fail':
+                out_.append((a, k, cl[(rot + j) % len(cl)]))
+                j += 1
+            else:
+                out_.append((a, k))
+    if all_classes and 'fail' in kinds:
+        k = ks[len(ks) // 2]
+        have = {v for v in out_ if v[0] == 'fail' and v[1] == k}
+        for c in cl:
+            if ('fail', k, c) not in have:
+                out_.append(('fail', k, c))
+    return out_
 
 
 def base_case(stream, compress, bufsize, prior, body_len, body_seed=0, schedule=None, src_fail=None, kill_mode='fork',
-              logging='warning'):
-    return {'logging': logging, 'kill_mode': kill_mode, 'stream': stream, 'compress': compress, 'bufsize': bufsize, 'prior': prior, 'body_len': body_len,
+              logging='warning', src_cls=None):
+    return {'src_cls': src_cls, 'logging': logging, 'kill_mode': kill_mode, 'stream': stream, 'compress': compress, 'bufsize': bufsize, 'prior': prior, 'body_len': body_len,
             'body_seed': body_seed, 'schedule': {str(k): list(v) for k, v in (schedule or {}).items()},
             'src_fail': src_fail}
 
@@ -830,25 +900,28 @@ def stream_of(schedule):
     return 'kill' if any(a[0] == 'die' for a in schedule.values()) else 'append'
 
 
-def sweep(ctx, compress, bufsize, prior, body_len, body_seed, doubles, rng, multi_kill='fork'):
+def sweep(ctx, compress, bufsize, prior, body_len, body_seed, doubles, rng, multi_kill='fork', all_classes=False):
     """Fault-free run, then a fault / kill at EVERY primitive, then second faults after every single fault.
     Single kills are always real (forked child, os._exit); `multi_kill='sim'` runs the kills of the
     multi-fault schedules in-process (Die + every later primitive suppressed) -- the quick tier."""
     multi_log = rng.choice(['debug', 'warning'])
 
-    def mk(sch, src=None, logging=None):
+    rot0 = rng.randrange(len(ERR_CLASSES))
+
+    def mk(sch, src=None, logging=None, src_cls=None):
         km = 'fork' if len(sch) <= 1 else multi_kill
         return base_case(stream_of(sch), compress, bufsize, prior, body_len, body_seed, sch, src, km,
-                         logging or multi_log)
+                         logging or multi_log, src_cls)
     base = run_cases(ctx, [mk({})])[0]
     n = len(base['trace'])
     singles = []
     for i, entry in enumerate(base['trace']):
-        for act in variants(entry):
+        for act in variants(entry, rot=rot0 + 3 * i, all_classes=all_classes):
             singles.append(mk({i: act}))
     npieces = 5 + (body_len + 4095) // 4096
-    for p in sorted({0, 2, npieces - 1, 10 ** 6}):
-        singles.append(mk({}, p))
+    for q, p in enumerate(sorted({0, 2, npieces - 1, 10 ** 6})):
+        for c in (ERR_CLASSES if all_classes else [ERR_CLASSES[(rot0 + q) % len(ERR_CLASSES)]]):
+            singles.append(mk({}, p, src_cls=c))
     # every single fault under the OTHER logging configuration as well (OSErrors: all; kills: prefix 0 / all)
     other = 'warning' if multi_log == 'debug' else 'debug'
     extra = [dict(c, logging=other) for c in singles
@@ -876,10 +949,10 @@ def sweep(ctx, compress, bufsize, prior, body_len, body_seed, doubles, rng, mult
         sch = sched_of(case)
         first = max(sch) if sch else -1
         for j in range(first + 1, len(r['trace'])):
-            for act in variants(r['trace'][j], rich=False):
+            for act in variants(r['trace'][j], rich=False, rot=rot0 + j):
                 sch2 = dict(sch)
                 sch2[j] = act
-                second.append(mk(sch2, case.get('src_fail')))
+                second.append(mk(sch2, case.get('src_fail'), src_cls=case.get('src_cls')))
     if doubles != 'all' and len(second) > doubles:
         second = rng.sample(second, doubles)
     res2 = run_cases(ctx, second)
@@ -891,10 +964,10 @@ def sweep(ctx, compress, bufsize, prior, body_len, body_seed, doubles, rng, mult
         sch = sched_of(case)
         first = max(sch)
         for j in range(first + 1, len(r['trace'])):
-            for act in variants(r['trace'][j], rich=False):
+            for act in variants(r['trace'][j], rich=False, rot=rot0 + j + 1):
                 sch3 = dict(sch)
                 sch3[j] = act
-                third.append(mk(sch3, case.get('src_fail')))
+                third.append(mk(sch3, case.get('src_fail'), src_cls=case.get('src_cls')))
     k = min(len(third), (doubles if doubles != 'all' else 400) // 4)
     if k:
         run_cases(ctx, rng.sample(third, k))
@@ -1265,16 +1338,17 @@ def life_case(compress, appending, max_size, log, leftovers, records, schedule=N
             'schedule': {str(k): list(v) for k, v in (schedule or {}).items()}}
 
 
-def sweep_life(ctx, compress, appending, max_size, log, leftovers, records, rng, doubles=0):
+def sweep_life(ctx, compress, appending, max_size, log, leftovers, records, rng, doubles=0, all_classes=False):
     """Fault-free life, then OSError and a real kill at EVERY primitive of it (constructor, roll-over, close())."""
     multi_log = rng.choice(['debug', 'warning'])
+    rot0 = rng.randrange(len(ERR_CLASSES))
     mk = lambda sch: life_case(compress, appending, max_size, log, leftovers, records, sch, logging=multi_log)
     base = run_lives(ctx, [mk({})])[0]
     singles = []
     for i, entry in enumerate(base['trace']):
         if entry[0] == 'mark':
             continue
-        for act in variants(entry, rich=False):
+        for act in variants(entry, rich=False, rot=rot0 + 2 * i, all_classes=all_classes):
             singles.append(mk({i: act}))
     other = 'warning' if multi_log == 'debug' else 'debug'
     run_lives(ctx, [dict(c, logging=other) for c in singles if any(a[0] == 'fail' for a in sched_of(c).values())])
@@ -1291,7 +1365,7 @@ def sweep_life(ctx, compress, appending, max_size, log, leftovers, records, rng,
             for j in range(first + 1, len(r['trace'])):
                 if r['trace'][j][0] == 'mark':
                     continue
-                for act in variants(r['trace'][j], rich=False):
+                for act in variants(r['trace'][j], rich=False, rot=rot0 + j):
                     sch2 = dict(sch)
                     sch2[j] = act
                     second.append(mk(sch2))
@@ -1333,8 +1407,9 @@ def run_life_stream(ctx, rng, thorough):
         must.append((compress, True, 900, True, LEFTOVER_SETS[3], [700, 50]))         # appending: skips used numbers
     grid = [g for g in life_grid() if g not in must]
     extra = grid if thorough else rng.sample(grid, ctx.scale(4, 4))
-    for (compress, appending, max_size, log, lo, records) in must + extra:
-        sweep_life(ctx, compress, appending, max_size, log, lo, records, rng, doubles=ctx.scale(30, 60))
+    for idx, (compress, appending, max_size, log, lo, records) in enumerate(must + extra):
+        sweep_life(ctx, compress, appending, max_size, log, lo, records, rng, doubles=ctx.scale(30, 60),
+                   all_classes=thorough and idx < len(must))
     # stale journals of every archive name: the run must refuse and leave everything alone
     stale = []
     for compress in (False, True):
@@ -1461,7 +1536,7 @@ def run(ctx):
             else:
                 doubles = ctx.scale(100, 100) if small else 0
             sweep(ctx, compress, bufsize, prior, body_len, rng.randrange(1000), doubles, rng,
-                  multi_kill='fork' if thorough else 'sim')
+                  multi_kill='fork' if thorough else 'sim', all_classes=thorough)
         run_startup(ctx, gen_startup(rng, ctx.scale(150, 3000)))
         run_life_stream(ctx, ctx.subrng('life'), thorough)
         ctx.sample({'stream': 'append', 'example': base_case('append', True, 64, 2, 200, 1, {7: ('fail', 3)})})
